@@ -11,6 +11,7 @@ from __future__ import annotations
 
 import copy
 import itertools
+import os
 import socket
 import struct
 import threading
@@ -312,6 +313,8 @@ def sibling_faults(scn):
     return out
 
 
+# experiment switch (not used by the registered commands): judge every route by the strict reading
+STRICT_ALL = os.environ.get("C13_STRICT_ALL") == "1"
 RCODES = [5, 2, 9]
 
 
@@ -723,17 +726,20 @@ def check_query(sent, case):
 
 # ---------------------------------------------------------------- the oracle
 def expected_verdict(case, pre_zone):
+    # strict: a deletion of a record the zone never held (and the stream never deleted) is invalid
+    strict = bool(case.get("grouped")) or STRICT_ALL
     if case["route"] == "direct":
         return ref.interpret(pre_zone, case["serial"], case["qtype"], case["udp"],
-                             canon_messages(case["messages"]), strict_delete=bool(case.get("grouped")))
+                             canon_messages(case["messages"]), strict_delete=strict)
     mode = case["udp_mode"]
     if mode == "NEVER" or case["qtype"] == "AXFR":
         return ref.interpret(pre_zone, case["serial"], case["qtype"], False,
-                             canon_messages(case["tcp_messages"]))
-    v = ref.interpret(pre_zone, case["serial"], "IXFR", True, canon_messages(case["udp_messages"]))
+                             canon_messages(case["tcp_messages"]), strict_delete=strict)
+    v = ref.interpret(pre_zone, case["serial"], "IXFR", True, canon_messages(case["udp_messages"]),
+                      strict_delete=strict)
     if mode == "TRY_FIRST" and v.reason == "use-tcp":
         return ref.interpret(pre_zone, case["serial"], "IXFR", False,
-                             canon_messages(case["tcp_messages"]))
+                             canon_messages(case["tcp_messages"]), strict_delete=strict)
     return v
 
 
